@@ -445,11 +445,16 @@ def _mpu_append_chunks_op(
 ):
     # expect 1 MPUChunk per partition
     (mpu,) = mpus
+    # More data is coming: the chunk only becomes final once everything is
+    # appended, else an early "final" spill can use up the write credits that
+    # the remaining data needs.
+    is_final, mpu.is_final = mpu.is_final, False
     for chunk in chunks:
         data, chunk_id = chunk
         mpu.append(data, chunk_id)
         if write is not None and spill_sz > 0:
             mpu.maybe_write(write, spill_sz)
+    mpu.is_final = is_final
 
     return [mpu]
 
